@@ -607,6 +607,7 @@ func runC11(p *core.Prog, r *core.Result) {
 		"R11.1 contract with the MVS library's Downgrade: Previous answers the sentinel version \"none\" (never dawn's empty root version) when there is no earlier version; Upgrade and Previous return the root unchanged",
 		"R11.2 every existing requirement name of a project that stays in the graph is kept, and such projects are not given fresh names",
 		"R11.3 a fresh requirement name is only used after a lookup of that very name in the new requirement set has failed",
+		"R11.6 the base argument of the MVS library's ReqList is nil or built from the build list of the same call (never from the root's pre-edit requirements), so no requirement is written back with an empty version",
 		"R11.5 get decides between upgrade, downgrade and no-op by comparing the requested version with the version selected in the build list, not with the root's own requirement entry",
 		"R11.4 requesting the version that is already selected returns the root's requirements unchanged",
 	}
@@ -766,6 +767,36 @@ func runC11(p *core.Prog, r *core.Result) {
 				okNoop = true
 			}
 		}
+		// ---- R11.6 contract of the MVS library's ReqList: the base paths (requirements to keep listed) must be in the
+		// build list handed to the same call; a path that is not gets the empty version
+		nRL := 0
+		for _, fn := range p.ModuleFuncs() {
+			if fn.Pkg == nil || fn.Pkg.Pkg.Path() != pkgMvs {
+				continue
+			}
+			for _, c := range core.Calls(fn) {
+				cal := core.Callee(c)
+				if cal == nil || cal.Name() != "ReqList" || cal.Pkg == nil || !strings.HasSuffix(cal.Pkg.Pkg.Path(), "/mvs") || cal.Pkg.Pkg.Path() == pkgMvs {
+					continue
+				}
+				args := c.Common().Args
+				if len(args) < 5 {
+					continue
+				}
+				nRL++
+				construct := fmt.Sprintf("%s#ReqList-base-%d", fname(fn), nRL)
+				base, list := args[3], args[2]
+				if core.IsNilConst(base) {
+					r.OK("R11.6", construct, p.InstrPos(c.(ssa.Instruction)), "no base paths are forced into the requirement list")
+					continue
+				}
+				fromList := core.DependsOn(base, core.SliceOpts{Stores: true}, func(v ssa.Value) bool { return v == list })
+				fromReqs := core.DependsOn(base, core.SliceOpts{Stores: true}, func(v ssa.Value) bool { return core.LoadOfField(v, pkgMvs, "mvsProject", "Requirements") })
+				r.Check(fromList && !fromReqs, "R11.6", construct, p.InstrPos(c.(ssa.Instruction)), "the base paths are taken from the build list of this call", "the paths forced into the requirement list come from the root's requirements before the edit, not from the new build list: a requirement that a downgrade removed from the build list is written back with an empty version, the rewritten dawn.toml no longer loads and the edited project has no build list")
+			}
+		}
+		r.Floor("R11.6", nRL, 1, "calls of the MVS library's ReqList")
+
 		// ---- R11.5 the direction of the edit (upgrade / downgrade / nothing) is decided against the version MVS
 		// *selected* for the project (an element of a build list), never against the root's own requirement entry
 		if cmpCall != nil {
